@@ -1,4 +1,4 @@
-From Coq Require Import ZArith QArith Qround Qminmax Lia Lra Psatz List.
+From Coq Require Import ZArith QArith Qround Qminmax Lia Lqa List.
 From Elex Require Import Base.QRound Model.Split.
 Import ListNotations.
 Open Scope Q_scope.
